@@ -1,5 +1,6 @@
 from typing import Callable
 import torch
+from emu_base import _verif
 
 DEFAULT_MAX_KRYLOV_DIM: int = 100
 
@@ -123,6 +124,16 @@ def krylov_exp(
         max_krylov_dim=max_krylov_dim,
     )
 
+    if _verif.enabled():
+        _verif.emit(
+            "kry_exit",
+            iters=krylov_result.iteration_count,
+            converged=krylov_result.converged,
+            breakdown=krylov_result.happy_breakdown,
+            herm=is_hermitian,
+            tol=exp_tolerance,
+            maxdim=max_krylov_dim,
+        )
     if not krylov_result.converged:
         raise RecursionError(
             "exponentiation algorithm did not converge to precision in allotted number of steps."
